@@ -206,12 +206,12 @@ def parseEnd (a : PAcc) (offset : Nat) : Except Nat (List Segment) :=
   | .afterScheme => .ok a.segments
   | .failed _ => .ok a.segments
 
-/-- The duplicate-name check (`names: HashSet<&str>` of the raw names). -/
+/-- The duplicate-name check (`names: HashSet<Cow<str>>` of the percent-decoded names, the keys `unapply` uses). -/
 def dupCheck (seen : List Bytes) : List Segment → Except Nat Unit
   | [] => .ok ()
   | s :: rest =>
     if s.parameter then
-      if seen.contains s.str then .error s.start else dupCheck (s.str :: seen) rest
+      if seen.contains (decodeLossy s.str) then .error s.start else dupCheck (decodeLossy s.str :: seen) rest
     else dupCheck seen rest
 
 inductive Seg
@@ -421,22 +421,14 @@ def Pat.unapplyStr (p : Pat) (route : Bytes) : Option KV :=
 
 /-! ### `RoutePattern::are_ambiguous`, `PlaneBuilder::build`, `Routes::find_route` -/
 
+/-- Literal segments are compared percent-decoded, as `unapply_parts` does. -/
 def ambSegs : List Seg → List Seg → Bool
   | [], [] => true
-  | .lit a :: ls, .lit b :: rs => if a = b then ambSegs ls rs else false
+  | .lit a :: ls, .lit b :: rs => if pctDecode a = pctDecode b then ambSegs ls rs else false
   | _ :: ls, _ :: rs => ambSegs ls rs
   | _, _ => false      -- lengths differ
 
 def areAmbiguous (l r : Pat) : Bool := ambSegs l.segs r.segs
-
-/-- `are_ambiguous` with the comparison of `fixes/F12.patch` (percent-decoded literals). -/
-def ambSegsDec : List Seg → List Seg → Bool
-  | [], [] => true
-  | .lit a :: ls, .lit b :: rs => if pctDecode a = pctDecode b then ambSegsDec ls rs else false
-  | _ :: ls, _ :: rs => ambSegsDec ls rs
-  | _, _ => false
-
-def areAmbiguousDec (l r : Pat) : Bool := ambSegsDec l.segs r.segs
 
 /-- `PlaneBuilder::build` accepts iff no pair `i < j` is ambiguous. -/
 def buildOk : List Pat → Bool
